@@ -25,7 +25,14 @@ fn run_t<T: Elem>(case: &mut Case) -> Outcome {
     let (base, kind) = gen_square::<T>(&mut case.src, n);
     let scaling = Scaling::gen::<T>(&mut case.src, n);
     let a = scaling.apply(&base);
-    let b: Vec<T> = gen_rhs(&mut case.src, n, kind == "continuous");
+    let mut b: Vec<T> = gen_rhs(&mut case.src, n, kind == "continuous");
+    // right-hand sides of any scale: exact power of two 2^j, |j| <= 600 (for complex entries the modulus
+    // sqrt(re^2 + im^2) of such a value under- or overflows although the value itself is perfectly fine)
+    if case.src.below(4) == 0 {
+        let j = case.src.small_int(600) as i32;
+        b = b.iter().map(|v| v.scale2(j.clamp(-600, 600) / 2).scale2(j - j.clamp(-600, 600) / 2)).collect();
+        case.class("rhs scaled by 2^j, |j| <= 600");
+    }
     case.class(format!("{}:{}", T::NAME, kind));
     case.class(format!("n={}", n));
 
@@ -185,7 +192,7 @@ impl Prop for C01 {
     fn rule(&self) -> String {
         "random choice streams decode to (element type in {rat,f64,cmplx}, order n in 1..=8 (floats 1..=12 in the thorough tier), \
          matrix kind in {P*L*U, sparse+transversal, planted zero leading pivots, (permuted) triangular, scaled permutation, dense, \
-         tiny leading pivots 2^-27..2^-46, continuous}, optional exact power-of-two row/column scaling 2^+-26, right-hand side); \
+         tiny leading pivots 2^-27..2^-46, continuous}, optional exact power-of-two row/column scaling 2^+-26, right-hand side, optionally scaled by 2^j with |j| <= 600); \
          singular (rat: exact determinant 0) or ill-conditioned (float: reference cond > 1e10) systems are discarded and counted. \
          Non-trivial: n >= 3 and the reference partial-pivoting elimination performs its a row exchange at some step k >= 1; \
          distinct = distinct sequence of decoded choices."
